@@ -309,7 +309,7 @@ def obligations(tier):
         if not q:
             obs.append(Obligation("block1-twosteps-szx%d" % szx, mk_block1(szx, 2), 3000, functions=FUNCS,
                                   symbolic={"pre-state": "27 combinations", "two requests": "84 combinations each"}, concrete={"size exponent": szx}))
-        for bi in (range(8) if not q else ([4, 7] if szx == 0 else [6])):
+        for bi in (range(8) if not q else ([4, 5, 7] if szx == 0 else [5, 6])):   # 5: body ends exactly on a block boundary
             obs.append(Obligation("block2-szx%d-len%d" % (szx, bi), mk_block2(szx, bi), 280 if q else 1500, functions=FUNCS,
                                   symbolic={"3 requests": "endpoint index x NUM 0..4", "first request without Block2": "bool"},
                                   concrete={"size exponent": szx, "body length index": bi}))
